@@ -1,6 +1,7 @@
 """Concurrency / pipeline rules: K1-K10, T2, Q1-Q2, P1-P3 (DESIGN 5: C06, C07, C11, C12, C16)."""
 from facts import AnalysisBroken, walk, children, strip, strip_all_casts, member_path
 from core import short
+import re
 import flow
 from flow import fmt_events
 from roles import Roles, field_root, FILE
@@ -323,11 +324,19 @@ def K2u(F, rep, R, ws):
         if w['fn']['simple'] != 'write':
             continue
         rep.count('K2u')
+        # with the request hand-off (T2, second shape) a wrapped fill level cannot block the producer for good: the waiting reader admits
+        # it through the other disjunct.  The conversion then costs throughput, not progress - not a violation of any property here.
+        ds = [expr_str(d) for d in w['disjuncts']]
+        if len(ds) == 3 and re.match(r'^\((?:this\.)?m_tellp(?:\.operator long\(\))? < (?:this\.)?(m_\w+)\)$', ds[2]):
+            rep.ob('K2u', '%s|%s|%s' % (short(w['fn']['name']), w['cv'], w['fn']['sig'][:40]), True, rep.fn_site(w['fn'], w['line']),
+                   '%s: the producer is also admitted by a waiting reader (%s); the signedness of the fill-level comparison cannot block it for good%s'
+                   % (short(w['fn']['name']), ds[2], ' (it IS compared unsigned here)' if diffs else ''), nontrivial=True)
+            continue
         rep.ob('K2u', '%s|%s|%s' % (short(w['fn']['name']), w['cv'], w['fn']['sig'][:40]), not diffs, rep.fn_site(w['fn'], w['line']),
                '%s: the fill level m_tellp - m_tellg is compared as a signed quantity' % short(w['fn']['name']) if not diffs else
                '%s: the fill level m_tellp - m_tellg is converted to %s before it is compared with the capacity: when the get position is ahead '
                '(an unknown object larger than the buffered data was skipped) it wraps and the producer is never admitted again' %
-               (short(w['fn']['name']), diffs[0].get('t')), nontrivial=True)
+               (short(w['fn']['name']), diffs[0].get('t')), nontrivial=True)['positive'] = True   # the conversion was *seen*: never 'undecided'
 
 
 def K2(F, rep, R, classes=None):
@@ -863,17 +872,30 @@ def T2(F, rep, R, FL, ws):
     wr = [w for w in ws if w['cls'] == cls and w['fn']['simple'] == 'write']
     rd = [w for w in ws if w['cls'] == cls and w['fn']['simple'] == 'read']
     shape_ok = bool(wr) and bool(rd)
+    handoff = None     # shape B: the field through which a waiting reader admits the writer
     for w in wr:
         s = [expr_str(d) for d in w['disjuncts']]
-        if not (len(s) == 2 and 'm_abort' in s[0] and 'm_bufferSize' in s[1] and '<' in s[1] and 'm_tellp' in s[1] and 'm_tellg' in s[1]):
+        base = len(s) >= 2 and 'm_abort' in s[0] and 'm_bufferSize' in s[1] and '<' in s[1] and 'm_tellp' in s[1] and 'm_tellg' in s[1]
+        if base and len(s) == 2:
+            if handoff:
+                handoff = False     # one overload has the extra disjunct, the other not (K2s reports that)
+        elif base and len(s) == 3:
+            m = re.match(r'^\((?:this\.)?m_tellp(?:\.operator long\(\))? < (?:this\.)?(m_\w+)\)$', s[2])
+            if m and (handoff is None or handoff == m.group(1)) and w is wr[0] or (m and handoff == m.group(1)):
+                handoff = m.group(1)
+            else:
+                shape_ok = False
+        else:
             shape_ok = False
     for w in rd:
         s = [expr_str(d) for d in w['disjuncts']]
         if not (len(s) == 3 and 'm_abort' in s[0] and 'm_tellp' in s[1] and 'm_fileSize' in s[2]):
             shape_ok = False
-    if not shape_ok:
+    if not shape_ok or handoff is False:
         rep.notes.append('T2: wait predicates of the stream do not have the premised shape - clause undecided')
         return
+    if handoff:
+        return T2_handoff(F, rep, R, FL, ws, st, cls, wr, rd, handoff)
     # B: what File::File configures
     ctor = [f for f in F.functions.get(FILE + '::File', []) if f.get('kind') == 'ctor']
     bsrc = None
@@ -905,6 +927,17 @@ def T2(F, rep, R, FL, ws):
         if unbounded and all('n=m_uncompressedFile.defaultLogContainerSize()' in u for u in unbounded):
             inv, why = buffer_tracks_container(F, FL, st)
             if inv:
+                # the request in flight was sized with the *previous* container size: a setter that can run during a session must not
+                # shrink the buffer below it
+                for f2 in methods_of(F, FILE):
+                    if f2.get('kind') == 'ctor':
+                        continue
+                    for n2 in walk(f2['body']):
+                        if n2.get('k') == 'Call' and n2.get('fn') == 'setBufferSize' and field_root(member_path(n2.get('obj')) or ()) == st and \
+                                'max(' not in expr_str(deep_resolve(n2['args'][0], f2)):
+                            inv, why = False, ('%s can shrink the buffer during a session (setBufferSize(%s)) while the compression thread is still '
+                                               'waiting for a container of the previous, larger size' % (short(f2['name']), expr_str(n2['args'][0])))
+            if inv:
                 tracked = '; the only non-constant request is the container size, and bufferSize tracks it (%s)' % why
                 nconst += len(unbounded)
                 unbounded = []
@@ -916,6 +949,130 @@ def T2(F, rep, R, FL, ws):
                 'have constant n, %d have a request size that is not provably <= bufferSize (e.g. %s)%s') %
                (st, mode, bsrc, nconst, len(unbounded), '; '.join(unbounded[:3]), tracked if ok else tracked + ' - a valid session with such a request deadlocks'),
                detail={'unbounded_sites': unbounded[:80]}, nontrivial=True)
+
+
+def T2_handoff(F, rep, R, FL, ws, st, cls, wr, rd, X):
+    """shape B: the writer is admitted by  abort || fill < B || m_tellp < X ; the reader publishes X := n + m_tellg under the lock and
+    wakes the writers before it waits for  n + m_tellg <= m_tellp.  Then 'reader blocked' implies m_tellp < n + m_tellg = X, so the
+    writer is admitted: for no request size and no buffer size are both sides blocked."""
+    problems = []
+    wcvs = {w['cv'] for w in wr}
+    for w in rd:
+        fn = w['fn']
+        datom = [expr_str(d) for d in w['disjuncts']][1]
+        m = re.match(r'^\((.*) <= (?:this\.)?m_tellp(?:\.operator long\(\))?\)$', datom)
+        want = _normx(m.group(1)) if m else None
+        if want is None:
+            problems.append('the data atom of %s is not  E <= m_tellp  (%s)' % (short(fn['name']), datom))
+            continue
+        npaths = 0
+        for evs, out in FL.paths(fn, follow=(), unroll=1):
+            wi = [i for i, e in enumerate(evs) if e['ev'] == 'call' and e['n'] is w['call']]
+            if not wi:
+                continue
+            npaths += 1
+            pre = evs[:wi[0]]
+            asg = [(i, e) for i, e in enumerate(pre) if e['ev'] == 'assign' and _assigned_field(e['n']) == X]
+            if not asg:
+                problems.append('%s waits for data without publishing its request in %s' % (short(fn['name']), X))
+                break
+            i, e = asg[-1]
+            n_ = e['n']
+            rhs = n_.get('rhs') if n_.get('k') == 'Bin' else (n_['args'][1] if len(n_.get('args', [])) == 2 else None)
+            got = _normx(expr_str(deep_resolve(rhs, fn))) if rhs is not None and n_.get('op') == '=' else None
+            if got != want:
+                problems.append('%s publishes %s := %s but waits for %s <= m_tellp: a blocked reader does not imply an admitted writer' % (short(fn['name']), X, got, want))
+                break
+            if not any(e2['ev'] == 'call' and e2['n'].get('fn') in ('notify_all',) and (member_path(e2['n'].get('obj')) or (None,))[-1] in wcvs for e2 in pre[i:]):
+                problems.append('%s publishes its request in %s without waking the writers (%s) before it waits' % (short(fn['name']), X, '/'.join(sorted(wcvs))))
+                break
+        if npaths == 0:
+            problems.append('no path of %s reaches its wait' % short(fn['name']))
+    # nobody but the reader changes X
+    for fn in methods_of(F, cls):
+        if fn['simple'] in ('read',):
+            continue
+        for n in walk(fn['body']):
+            if n.get('k') in ('Bin', 'Call', 'Un') and _assigned_field(n) == X:
+                problems.append('%s changes %s (line %s): the admission a waiting reader relies on can be withdrawn' % (short(fn['name']), X, n.get('l')))
+    ctor = [f for f in F.functions.get(FILE + '::File', []) if f.get('kind') == 'ctor']
+    for mode in ('read', 'write'):
+        rep.count('T2')
+        rep.ob('T2', '%s|%s' % (st, mode), not problems, rep.fn_site(rd[0]['fn'], rd[0]['line']) if rd else None,
+               ('%s, %s mode: the writer is admitted while m_tellp < %s and the reader publishes %s := its request end and wakes the writers before it '
+                'waits - a blocked reader implies an admitted writer, for every request and buffer size') % (st, mode, X, X) if not problems else
+               '%s, %s mode: %s' % (st, mode, '; '.join(problems[:3])), nontrivial=True)
+
+
+def _normx(sx):
+    return sx.replace('.operator long()', '').replace('this.', '') if isinstance(sx, str) else sx
+
+
+def _assigned_field(n):
+    t = None
+    if n.get('k') == 'Bin' and n.get('op') in ('=', '+=', '-=', '|=', '&='):
+        t = n['lhs']
+    elif n.get('k') == 'Un' and n.get('op') in ('++', '--'):
+        t = n['sub']
+    elif n.get('k') == 'Call' and n.get('ck') == 'operator' and n.get('op') in ('=', '+=', '-=') and n.get('args'):
+        t = n['args'][0]
+    if t is None:
+        return None
+    p_ = member_path(t)
+    return p_[-1] if p_ else None
+
+
+def P6(F, rep, R, FL):
+    """the get position never moves back behind released data: in the functions that consume from the stream, no seekg by a possibly
+    negative distance follows dropOldData() on the same path (dropOldData releases the front container as soon as the get position has
+    passed its end; a rewind after that points into bytes that are gone - the decoder then reads nothing, stays 'good' and searches for an
+    object signature forever)"""
+    st = 'm_uncompressedFile'
+    consumers = sorted({c['caller'] for c in R.calls if c['stage'] == st and c['method'] in ('read', 'seekg') and c['caller'].startswith(FILE + '::')} |
+                       {c['chain'][1] for c in R.calls if c['stage'] == st and c['method'] == 'read' and len(c['chain']) > 1 and c['chain'][1].startswith(FILE + '::')})
+    n = 0
+    for q in consumers:
+        fn = F.fn(q)
+        if not any(x.get('k') == 'Call' and x.get('fn') == 'dropOldData' for x in walk(fn['body'])):
+            continue
+        n += 1
+        rep.count('P6')
+        bad = None
+        for evs, out in FL.paths(fn, follow=()):
+            drops = [i for i, e in enumerate(evs) if e['ev'] == 'call' and e['n'].get('fn') == 'dropOldData' and field_root(member_path(e['n'].get('obj'))) == st]
+            if not drops:
+                continue
+            for i, e in enumerate(evs):
+                if i <= drops[0] or e['ev'] != 'call' or e['n'].get('fn') != 'seekg' or field_root(member_path(e['n'].get('obj'))) != st or not e['n'].get('args'):
+                    continue
+                a0 = strip_all_casts(deep_resolve(e['n']['args'][0], fn))
+                if not isinstance(a0, dict):
+                    continue
+                if 'v' in a0 and a0['v'] >= 0:
+                    continue
+                t_ = a0.get('t') or ''
+                unsigned = t_.startswith('unsigned') or t_.startswith('uint') or 'size_t' in t_ and 'ssize' not in t_
+                if unsigned and not (a0.get('k') == 'Un' and a0.get('op') == '-'):
+                    continue
+                # a rewind that only takes back (part of) what was consumed since the drop ends at or behind the position the drop saw:
+                # the rewinds of this code base compensate a read (peeked header, over-read object), so a consuming call in between
+                # is accepted; a rewind with nothing consumed since the drop goes behind it
+                last_drop = max(d for d in drops if d < i)
+                consumed = [x for x in evs[last_drop + 1:i] if x['ev'] == 'call' and x['n'].get('fn') == 'read' and
+                            (field_root(member_path(x['n'].get('obj')) or ()) == st or
+                             any(field_root(member_path(a_) or ()) == st for a_ in x['n'].get('args', [])))]
+                if consumed:
+                    continue
+                bad = (e, evs)
+                break
+            if bad:
+                break
+        rep.ob('P6', short(q), bad is None, rep.fn_site(fn, bad[0].get('l')) if bad else rep.fn_site(fn),
+               '%s: every backward seek on the stream precedes dropOldData()' % short(q) if bad is None else
+               '%s: seekg(%s) at line %s may move the get position back after dropOldData() has released the containers behind it: %s' %
+               (short(q), expr_str(bad[0]['n']['args'][0]), bad[0].get('l'), fmt_events(bad[1], limit=16)), nontrivial=True)
+    if n < 1:
+        raise AnalysisBroken('P6: no consumer of the stream calls dropOldData()')
 
 
 def buffer_tracks_container(F, FL, st):
@@ -1210,8 +1367,25 @@ def P(F, rep, R, FL, ws):
         calls = [n for n in walk(ctor[0]['body']) if n.get('k') == 'Call' and n.get('fn') == 'setBufferSize' and field_root(member_path(n.get('obj'))) == st]
         ok = len(calls) >= 1
         arg = expr_str(calls[0]['args'][0]) if calls else None
-        rep.ob('P1', st, ok, rep.fn_site(ctor[0]), 'File::File configures %s.setBufferSize(%s)' % (st, arg) if ok else
-               'File::File never bounds %s (the default capacity is numeric_limits::max())' % st, nontrivial=True)
+        where = 'File::File'
+        if not ok:
+            # ... or open() does, on every path that starts the workers and before it starts them
+            npaths = 0
+            ok = True
+            for evs, out in FL.paths(R.open_fn, follow=()):
+                if not [1 for e in evs if e['ev'] == 'branch' and e['taken'] and R._mode_of_cond(e['n'])]:
+                    continue
+                npaths += 1
+                th = [i for i, e in enumerate(evs) if e['ev'] == 'call' and (e['n'].get('callee') or '').startswith('std::thread::')]
+                sb = [i for i, e in enumerate(evs) if e['ev'] == 'call' and e['n'].get('fn') == 'setBufferSize' and field_root(member_path(e['n'].get('obj'))) == st]
+                if not sb or (th and sb[0] > th[0]):
+                    ok = False
+                elif arg is None:
+                    arg = expr_str(evs[sb[0]]['n']['args'][0])
+            ok = ok and npaths > 0
+            where = 'File::open (before the workers start)'
+        rep.ob('P1', st, ok, rep.fn_site(ctor[0]), '%s configures %s.setBufferSize(%s)' % (where, st, arg) if ok else
+               'neither File::File nor File::open (before the workers start) bounds %s (the default capacity is numeric_limits::max())' % st, nontrivial=True)
     # P2: every insertion into stage storage is preceded by a back-pressure wait whose predicate reads the capacity
     for cls in stage_classes(F, R):
         g, cvs, mtx = guarded_fields(F, cls)
@@ -1264,12 +1438,14 @@ def P(F, rep, R, FL, ws):
             if not commits:
                 continue
             drops = [i for i, e in enumerate(evs) if e['ev'] == 'call' and e['n'].get('fn') == 'dropOldData' and field_root(member_path(e['n'].get('obj'))) == st]
-            if not any(d > commits[-1] for d in drops):
+            # one drop per invocation is enough wherever it sits (the function runs in a loop: what this call leaves behind the next one
+            # releases); that it does not sit in front of a rewind is P6
+            if not drops:
                 bad = evs
                 break
         rep.ob('P3', short(q), bad is None, rep.fn_site(fn),
-               '%s calls %s.dropOldData() after every commit / skip' % (short(q), st) if bad is None else
-               '%s consumes from the stream without dropping consumed containers afterwards: %s - memory grows with the file' % (short(q), fmt_events(bad)), nontrivial=True)
+               '%s calls %s.dropOldData() on every path that commits / skips' % (short(q), st) if bad is None else
+               '%s consumes from the stream without ever dropping consumed containers: %s - memory grows with the file' % (short(q), fmt_events(bad)), nontrivial=True)
     # dropOldData can actually pop
     cls = R.stages[st]
     d = [f for f in methods_of(F, cls) if f['simple'] == 'dropOldData']
